@@ -58,4 +58,6 @@ _whole.install(globals(), "C02",
                technique="Coq invariant of the history machine over all event streams + vm_compute trace replay + re-evaluation monitor on real runs",
                quick=200, thorough=5000, nontrivial=nontrivial, machine_replay=False, hist_replay=True, extra_checks=[cache_pairs, pop_components],
                forces=[(3, {"cap_evals": 900}), (1, {"cap_evals": 900, "height": 2, "engines": ["DE", "Local"]}), (1, {"cap_evals": 900, "height": 2, "engines": ["SHADE", "DE"]}),
-                       (1, {"cap_evals": 900, "height": 3, "per_level_problems": True, "wrappers": "none"}), (1, {"cap_evals": 900, "height": 2, "per_level_problems": True, "wrappers": "counting", "engines": ["SEA", "DE"]})])
+                       (1, {"cap_evals": 900, "height": 3, "per_level_problems": True, "wrappers": "none"}), (1, {"cap_evals": 900, "height": 2, "per_level_problems": True, "wrappers": "counting", "engines": ["SEA", "DE"]}),
+                       (1, {"cap_evals": 900, "height": 2, "engines": ["SEA", "Local"], "objective_kind": "linear", "levels_patch": [{}, {"method": "BFGS", "maxiter": 8}]}),
+                       (1, {"cap_evals": 900, "height": 2, "maximize": True, "engines": ["SEA", "CMA"], "levels_patch": [{"p_mutation": 0.3}, {}]})])
